@@ -13,7 +13,7 @@
    FSendAll / FCallback / FProcessDone / FWaitReturns / FNextFlush it recorded must be a run of
    the flusher LTS that ends with a returned flush and every request called back exactly once. *)
 From Coq Require Import List Arith Bool ZArith.
-From GS Require Export Base.Bytes Base.CorrLib Model.Sender Model.Collector.
+From GS Require Export Base.Bytes Base.CorrLib Model.Sender Model.Collector Model.PostLoop.
 Import ListNotations.
 
 (* ---------------------------------------------------------------------------------------- *)
@@ -157,8 +157,11 @@ Definition req_ok (r : reqobs) : bool :=
                && Nat.eqb (length es) (ro_n r)
       | KOtlp =>
           if ro_cancel r then true
-          else leqb Bool.eqb (map is_err es)
-                 (map is_err (hd [] (otlp_callbacks (repeat true (ro_fails r) ++ repeat false (ro_n r - ro_fails r)))))
+          else (* multierr.Errors may split the group's error into several entries: an error is present iff
+                  the model says so, and the list is empty iff there is none *)
+               Bool.eqb (has_err es)
+                 (has_err (hd [] (otlp_callbacks (repeat true (ro_fails r) ++ repeat false (ro_n r - ro_fails r)))))
+               && Bool.eqb (has_err es) (negb (Nat.eqb (length es) 0))
       | KCloudwatch =>
           (* the fake client ignores the context: the outcome list is exact also under cancellation *)
           Nat.eqb (count_cerr EPost es + count_cerr ECtx es) (ro_fails r) && Nat.eqb (length es) (ro_n r)
@@ -194,19 +197,60 @@ Definition flush_ok (ls : list flabel) : bool :=
   end.
 
 (* ---------------------------------------------------------------------------------------- *)
+(* post loops: a request that consists of one batch, never cancelled, against a server that answers
+   attempt j of that batch with the j-th entry of a script.  Recorded: the answers in order and the
+   reading of the flush context's (mock) clock at every attempt, in ns.  The clock only moves when a
+   timer of the loop fires, so the time between two attempts is the sleep and the time since the
+   first attempt is what backoff.GetElapsedTime() returns.  The back-off oracle of the run is rebuilt
+   from that: Stop iff elapsed > window (cenkalti/backoff v2: `GetElapsedTime() > MaxElapsedTime`),
+   otherwise the observed sleep.  The model of the backend's loop, run on these scripts, must make
+   the same number of attempts, create the same timers (for newrelic: after Retry-After and the
+   window cap have been applied to the oracle's value) and return the result the callback carried. *)
+Record loopobs := LO {
+  lo_b : backend;
+  lo_window : Z;
+  lo_answers : list answer;
+  lo_times : list Z;
+  lo_res : cerr
+}.
+
+Fixpoint diffs (l : list Z) : list Z :=
+  match l with
+  | x :: ((y :: _) as r) => (y - x)%Z :: diffs r
+  | _ => []
+  end.
+
+Definition lo_oracle (l : loopobs) (i : nat) : option Z :=
+  let t j := nth j (lo_times l) 0%Z in
+  if (lo_window l <? t i - t 0%nat)%Z then None else Some (t (S i) - t i)%Z.
+
+Definition cerr_eqb (a b : cerr) : bool :=
+  match a, b with ENil, ENil | EPost, EPost | ECtx, ECtx => true | _, _ => false end.
+
+Definition lo_model (l : loopobs) : outcome :=
+  post (lo_b l) (fun i => nth i (lo_answers l) ABad) (lo_oracle l) (fun _ => false) (S (length (lo_answers l))).
+
+Definition loop_ok (l : loopobs) : bool :=
+  Nat.eqb (length (lo_answers l)) (length (lo_times l)) &&
+  match lo_model l with
+  | Done r a sl => Nat.eqb a (length (lo_answers l)) && cerr_eqb (cerr_of r) (lo_res l)
+                   && leqb Z.eqb sl (diffs (lo_times l))
+  | OutOfFuel => false
+  end.
+
 Inductive c16case :=
 | SenderTrace (maxs : nat) (obs : list sobs)
-| BackendFlush (reqs : list reqobs) (trace : list flabel).
+| BackendFlush (reqs : list reqobs) (trace : list flabel) (loops : list loopobs).
 
 Definition check_case (c : c16case) : bool :=
   match c with
   | SenderTrace maxs obs => sender_accepts maxs obs && sender_once obs
-  | BackendFlush reqs tr => forallb req_ok reqs && flush_ok tr
+  | BackendFlush reqs tr loops => forallb req_ok reqs && flush_ok tr && forallb loop_ok loops
   end.
 
 Inductive explanation :=
 | XSender (consumed : nat) (of : nat) (states : list (phase * option nat * list nat * list err)) (once : bool)
-| XBackend (reqs_ok : list bool) (flush : option (fphase * Z * nat * list nat)).
+| XBackend (reqs_ok : list bool) (flush : option (fphase * Z * nat * list nat)) (loops : list (bool * outcome)).
 
 Definition explain_case (c : c16case) : explanation :=
   match c with
@@ -215,7 +259,8 @@ Definition explain_case (c : c16case) : explanation :=
       XSender k (length obs)
               (map (fun s => (ph s, cur s, queue s, errs s)) (closure (closure_fuel sts) maxs sts))
               (sender_once obs)
-  | BackendFlush reqs tr =>
+  | BackendFlush reqs tr loops =>
       XBackend (map req_ok reqs)
                (match frun finit tr with Some s => Some (fph s, wg s, issued s, cbs s) | None => None end)
+               (map (fun l => (loop_ok l, lo_model l)) loops)
   end.
